@@ -235,6 +235,9 @@ pub struct Sim {
     pub cancel_hook: Option<CancelHook>,
     /// Descriptors issued by the simulator: fd -> still open.
     pub issued_fds: BTreeMap<i32, bool>,
+    /// The worker's own descriptor 0, parked while a case uses the number
+    /// for a descriptor it hands to a10 (see `issue_fd_low`).
+    pub saved_stdin: Option<i32>,
     next_fd: i32,
     scratch_fd: i32,
     register_count: BTreeMap<u32, u32>,
@@ -363,6 +366,7 @@ pub fn sim() -> SimGuard {
             wait_hook: None,
             cancel_hook: None,
             issued_fds: BTreeMap::new(),
+            saved_stdin: None,
             next_fd: first_issued_fd(),
             scratch_fd,
             register_count: BTreeMap::new(),
@@ -442,6 +446,9 @@ impl Sim {
         for (fd, open) in std::mem::take(&mut self.issued_fds) {
             if open {
                 shims::raw_close(fd);
+                if fd == 0 {
+                    self.restore_stdin();
+                }
             }
         }
         self.cfg = SimCfg::default();
@@ -488,9 +495,44 @@ impl Sim {
         n
     }
 
+    /// Issue descriptor number 0 (the lowest number, which the kernel hands
+    /// out in a process that runs without a standard input): the worker's own
+    /// descriptor 0 is parked meanwhile and put back the moment the issued
+    /// one is closed. `None` if the number is in use by this case already.
+    pub fn issue_fd_low(&mut self) -> Option<i32> {
+        if self.issued_fds.get(&0).copied().unwrap_or(false) {
+            return None;
+        }
+        if self.saved_stdin.is_none() {
+            let s = unsafe { libc::fcntl(0, libc::F_DUPFD_CLOEXEC, 200) };
+            if s < 0 {
+                return None;
+            }
+            self.saved_stdin = Some(s);
+        }
+        let r = unsafe { libc::dup3(self.scratch_fd, 0, libc::O_CLOEXEC) };
+        if r != 0 {
+            return None;
+        }
+        self.issued_fds.insert(0, true);
+        Some(0)
+    }
+
+    /// Put the worker's own descriptor 0 back.
+    pub fn restore_stdin(&mut self) {
+        if let Some(s) = self.saved_stdin {
+            unsafe { libc::dup2(s, 0) };
+        }
+    }
+
     /// Called by the close shim observer (driver side) to mark an issued fd closed.
     pub fn note_fd_closed(&mut self, fd: i32) {
         if let Some(open) = self.issued_fds.get_mut(&fd) {
+            if *open && fd == 0 {
+                *open = false;
+                self.restore_stdin();
+                return;
+            }
             *open = false;
         }
     }
